@@ -59,4 +59,10 @@ CLAIMED = {
   "text": "For every accepted configuration and every frame length 1..8184 at once: the ADTS header written is the ISO layout bit for bit, Decode run on the ISO layout (either MPEG id, with and without CRC) returns exactly the raw block and the remainder and the configuration's fields, ASC packs 5+4+4 bits both ways and accepts exactly {1,2,3,5,29}x[1,12]x[1,7]; tables fold to ISO values. Payload bytes are opaque; multi-frame streams follow by induction.",
   "note": "Layout tables are my transcription of the ISO documents; don't-care bits where the standard leaves the value to the writer.",
  },
+
+ "C12": {
+  "technique": "bit-provenance abstract interpretation against transcribed ISO 14496-15/14496-10 layout tables (element counts 0..2 and NAL length sizes enumerated, all fields and payload lengths symbolic), both directions",
+  "text": "For every field value and payload length at once: NAL header, NAL unit, avcC record (reserved bits, counts, 16-bit lengths) and length-prefixed samples for all four length sizes are written exactly as ISO prescribes and are read back from that layout to the same fields with every index/slice proven in range. Counts above 2 follow from the per-iteration uniformity of the loop body (argued, not enumerated); payload bytes are opaque.",
+  "note": "Layout tables are my transcription of ISO/IEC 14496-15 and 14496-10.",
+ },
 }
